@@ -192,14 +192,14 @@ def cases(tier, seed):
     for r in rest + aots:
         cid = "corpus:%s%s" % (r["path"], "#%d" % r["member"] if r.get("member") is not None else "")
         out.append({"id": cid, "kind": "corpus", "path": r["path"], "member": r.get("member"), "seed": seed,
-                    "nrandom": 8 if T_ else 3, "timeout": 600 if r["numGlyphs"] > 1000 else 300})
-    mult = 5 if T_ else 1
+                    "nrandom": 12 if T_ else 3, "timeout": 600 if r["numGlyphs"] > 1000 else 300})
+    mult = 12 if T_ else 1
 
     def gen(kind, n, **params):
         for i in range(n):
             pid = ",".join("%s=%s" % kv for kv in sorted(params.items()))
             out.append({"id": "gen:%s:%s:%d" % (kind, pid, i), "kind": "gen", "gen": kind, "i": i, "params": params,
-                        "seed": seed, "nrandom": 6 if T_ else 3})
+                        "seed": seed, "nrandom": 8 if T_ else 3})
 
     gen("ttcomp", 5 * mult)
     gen("ttcomp", 2 * mult, lsb_shift=True)
@@ -517,6 +517,7 @@ def _judge_font(ctx, data, font, label, rnd, nrandom):
     axes_tags = [a.axisTag for a in font["fvar"].axes] if variable else []
     stats = Counter()
     vetoed = set()   # glyphs on which the two oracles disagree at the default location
+    adv_vetoed = set()
 
     for L in locs:
         user = L.user
@@ -612,12 +613,17 @@ def _judge_font(ctx, data, font, label, rnd, nrandom):
             mech_base = {"tech": tech, "glyph": gi["kind"], "traits": _traits_str(gi["traits"]), "loc": loc_kind}
             hb_rec = hbU.outline(gid)
             hb_adv = hbU.h_advance(gid)
+            adv_veto = False
             # ---- second opinion at the default location ------------------
             if not user and ft is not None:
                 try:
                     ft_rec, ft_adv = ft.outline(gid)
                 except Exception:
                     ft_rec = None
+                if ft_rec is not None and abs(ft_adv - hb_adv) > 0.5 and hb_adv != -1:
+                    adv_veto = True
+                    adv_vetoed.add(name)
+                    stats["oracles-disagree-on-advance"] += 1
                 if ft_rec is not None:
                     ok, why = _ft_agrees(hb_rec, ft_rec, gi["ft_tol"])
                     if not ok:
@@ -644,7 +650,7 @@ def _judge_font(ctx, data, font, label, rnd, nrandom):
             stats["outline-stage%d" % stage] += 1
             if not ok:
                 mech = dict(mech_base, kind="outline", path="user" if exact else "normalized")
-                if gi["kind"] == "composite":
+                if gi["kind"] == "composite" and "scaled-offset" not in gi["traits"] and gi["traits"] & {"lsb!=xMin", "left-phantom-varies"}:
                     rec2 = _unshift(rec, hb_rec, float("inf"))
                     if rec2 is not None and fgeom.outlines_match(rec2, hb_rec, TOL)[0]:
                         # equal to HarfBuzz up to a pure horizontal translation: the shift that puts
@@ -658,8 +664,11 @@ def _judge_font(ctx, data, font, label, rnd, nrandom):
             nonempty = bool(geom.nondegenerate(geom.canon(hb_rec)))
             # ---- advances ----------------------------------------------------
             w = g.width
-            ctx.judged()
-            if w is None or abs(w - hb_adv) > 0.5 + 1e-6:
+            if adv_veto or name in adv_vetoed:
+                ctx.skip("advance not judged: HarfBuzz and FreeType disagree")
+            else:
+                ctx.judged()
+            if (not adv_veto and name not in adv_vetoed) and (w is None or abs(w - hb_adv) > 0.5 + 1e-6):
                 if not (hb_adv == -1 and w == 65535):   # HarfBuzz quirk for advance 0xFFFF
                     ctx.violation({"kind": "advance", "which": "width", "tech": tech, "metrics": msrc if user else "hmtx", "loc": loc_kind,
                                    "traits": _traits_str(gi["traits"] & {"use-my-metrics"})},
@@ -777,9 +786,10 @@ def coverage_extra(results):
     obs = Counter()
     for r in results:
         obs.update(r.get("obs", {}))
-    ops = sorted(k[3:] for k in obs if k.startswith("T2:"))
+    ops = sorted(k[3:] for k in obs if k.startswith("T2:") and not k.startswith("T2:max-subr-depth"))
     return {
         "t2_operator_forms_executed": ops,
+        "t2_max_subr_depth": max([int(k.split("=")[1]) for k in obs if k.startswith("T2:max-subr-depth=")] or [0]),
         "component_flags_executed": sorted(k[10:] for k in obs if k.startswith("component:")),
         "iup_situations": sorted(k[4:] for k in obs if k.startswith("iup:")),
         "outline_pairs_stage1": obs.get("outline-stage1", 0),
